@@ -61,6 +61,11 @@ Section Preprocess.
 
   Definition out := (string * V * bool)%type.
 
+  (* the key of a longhand in the styles: "-" becomes "_" ; a custom property keeps its exact name, only its "--"
+     prefix becomes "__" *)
+  Definition style_key (long_name : string) : string :=
+    if prefix "--" long_name then ("__" ++ drop 2 long_name)%string else underscore long_name.
+
   (* what one iteration yields *)
   Definition pp1 (it : item) : res (list out) :=
     match it with
@@ -73,7 +78,7 @@ Section Preprocess.
             else match validator n tokens with
                  | Invalid => Ok []                            (* except InvalidValues: warning, continue *)
                  | Crash => Crash
-                 | Ok result => Ok (map (fun nv => (underscore (fst nv), snd nv, important)) result)
+                 | Ok result => Ok (map (fun nv => (style_key (fst nv), snd nv, important)) result)
                  end
         end
     | _ => Ok []
